@@ -6,7 +6,7 @@ node spec:  ('L',)                                   plain state
             ('O', headless, [children])               orthogonal region
 strategy in Composite / Resumable / Selectable / Utilitarian / Random
 """
-import json, random, hashlib
+import json, random, hashlib, zlib
 
 STRATS = ['Composite', 'Resumable', 'Selectable', 'Utilitarian', 'Random']
 STRAT_ID = {s: i for i, s in enumerate(STRATS)}
@@ -174,9 +174,12 @@ def expectations(nodes, regions):
     return {'STATE_COUNT': len(nodes), 'REGION_COUNT': len(regions), 'COMPO_COUNT': compo, 'ORTHO_COUNT': ortho,
             'COMPO_PRONGS': prongs, 'ORTHO_UNITS': ortho_units, 'widths': [len(n['children']) for n in nodes]}
 
-def shape_json(name, spec, cfg):
+def shape_json(name, spec, cfg, inj=None):
     nodes, regions = number(spec)
-    return {'name': name, 'desc': describe(spec), 'cfg': cfg, 'nodes': nodes, 'regions': regions, 'kindmask': kind_masks(nodes),
+    if inj is None:
+        r = random.Random(zlib.crc32(describe(spec).encode()))
+        inj = [n['id'] for n in nodes if not (n['kind'] != 'L' and n['headless']) and r.random() < 0.25]
+    return {'inj': inj, 'name': name, 'desc': describe(spec), 'cfg': cfg, 'nodes': nodes, 'regions': regions, 'kindmask': kind_masks(nodes),
             'expect': expectations(nodes, regions), 'width1': has_width1(nodes)}
 
 def emit_tu(sj, header='<hfsm2/machine.hpp>', main='vh_main.hpp', extra_defs=''):
@@ -198,7 +201,8 @@ def emit_tu(sj, header='<hfsm2/machine.hpp>', main='vh_main.hpp', extra_defs='')
     cfgchain += '#ifndef VH_NO_PAYLOAD\n  ::PayloadT<VH_PAYLOAD>\n#endif\n'
     pay = {'int': 'int', 'pod24': 'vh::Pod24', 'big64': 'vh::Big64', 'tiny': 'vh::Tiny'}[cfg.get('payload', 'int')]
     decls = '\n'.join('struct N%d;' % i for i in named)
-    defs = '\n'.join('struct N%d : vh::Node<%d, %d, FSM::State> {};' % (i, i, len(nodes[i]['children'])) for i in named)
+    inj = set(sj.get('inj', []))
+    defs = '\n'.join('struct N%d : vh::Node<%d, %d, %s> {};' % (i, i, len(nodes[i]['children']), ('FSM::StateT<vh::VInj<%d>>' % i) if i in inj else 'FSM::State') for i in named)
     fill = '\n'.join('\tp.expectThis[%d] = &m.template access<N%d>();' % (i, i) for i in named)
     ids = '\n'.join('\tout[%d] = (int)FSM::stateId<N%d>();' % (i, i) for i in named)
     rids = '\n'.join('\tout[%d] = (int)FSM::regionId<N%d>();' % (nodes[i]['region'], i) for i in named if nodes[i]['kind'] != 'L')
@@ -241,6 +245,7 @@ using Config = {cfgchain};
 using M = hfsm2::MachineT<Config>;
 {decls}
 using FSM = {cpp_region(nodes, 0, True)};
+#include "vh_inj.hpp"
 {defs}
 template <typename TM> static void vhFillThis(TM& m, vh::Probe& p) {{
 {fill}
